@@ -3,10 +3,14 @@ package monitor
 import (
 	"bytes"
 	"context"
+	"encoding/json"
 	"errors"
 	"fmt"
 	"io"
+	"io/fs"
 	"math"
+	"reflect"
+	"strconv"
 	"strings"
 
 	"github.com/willabides/rjson"
@@ -155,6 +159,20 @@ func libraryErrors() []error {
 	out = append(out, errList{"first problem", "second problem"})
 	out = append(out, io.EOF, io.ErrUnexpectedEOF, context.Canceled, errors.New("EOF"),
 		fmt.Errorf("handler: %w", io.EOF), fmt.Errorf("handler: %w", out[0]))
+	// the structured errors a handler gets from the decoders it delegates to: a traversal that "improves"
+	// one of them (adds the member name, shifts the offset) returns a different value (seeded change
+	// C09r10-m2 did that to *json.UnmarshalTypeError in the object machine only)
+	out = append(out,
+		&json.UnmarshalTypeError{Value: "string", Type: reflect.TypeOf(0), Offset: 5, Struct: "T", Field: "forks"},
+		&json.SyntaxError{Offset: 3},
+		&json.InvalidUnmarshalError{Type: reflect.TypeOf(0)},
+		&json.UnsupportedTypeError{Type: reflect.TypeOf(0)},
+		&json.MarshalerError{Type: reflect.TypeOf(0), Err: io.EOF},
+		&strconv.NumError{Func: "ParseInt", Num: "12x", Err: strconv.ErrSyntax},
+		&fs.PathError{Op: "open", Path: "/nonexistent", Err: fs.ErrNotExist},
+		json.Unmarshal([]byte(`{"a":"x"}`), &struct{ A int }{}),
+		json.Unmarshal([]byte(`[1,`), new(interface{})),
+		&offsetErr{Offset: 7, Field: "name", Msg: "wrong type"})
 	return out
 }
 
@@ -418,8 +436,27 @@ func RunC09(c *Ctx) {
 					if k%2 == 1 {
 						buf = nil
 					}
+					// now and then the same document and Buffer go through another function first, the way a
+					// program validates (or skips, or walks) a message before it walks it (seeded change
+					// C09r10-m1: Valid remembers the slice it accepted in the Buffer, and the next traversal of
+					// that very slice with that Buffer swallows a handler error that comes with offset 0)
+					if buf != nil && errCounter%5 >= 2 {
+						switch errCounter % 5 {
+						case 2:
+							rjson.Valid(d, buf)
+						case 3:
+							rjson.SkipValue(d, buf)
+						case 4:
+							traverse(kind, d, &probe{doc: d, answer: func(i, o int, data []byte) (int, error) { return 0, nil }}, buf)
+						}
+						c.Rec.C("traversals_after_another_call_on_the_same_document_and_buffer")
+					}
+					textBefore := errStr(sentinel)
 					if c.Guarded(cs, kindName[kind], func() { p, err = traverse(kind, d, pr, buf) }) {
 						break
+					}
+					if errStr(sentinel) != textBefore {
+						c.Rec.AddViolation(h.Violation{Property: c.Prop, Oracle: kindName[kind] + " modified the handler's error value", Entry: kindName[kind], Family: cs.Family, Desc: cs.Describe(), InputB64: b64(d), InputQ: h.Quote(d), Script: fmt.Sprintf("fail at call %d with offset %d and error %q (%T)", k, off, textBefore, sentinel), Expected: textBefore, Observed: errStr(sentinel), Seed: c.Seed, Tier: c.Tier})
 					}
 					c.Rec.Evals(1)
 					if len(pr.log) <= k {
@@ -447,6 +484,15 @@ func RunC09(c *Ctx) {
 		}
 	})
 }
+
+// offsetErr looks like the position-carrying errors of decoding libraries (exported Offset and Field).
+type offsetErr struct {
+	Offset int64
+	Field  string
+	Msg    string
+}
+
+func (e *offsetErr) Error() string { return fmt.Sprintf("%s at %d (%s)", e.Msg, e.Offset, e.Field) }
 
 // sameError is identity of error values that also works for uncomparable dynamic types.
 func sameError(a, b error) bool {
